@@ -138,11 +138,14 @@ func (o *object) deleteProperty(name string) {
 	delete(o.property, name)
 	for index, prop := range o.propertyOrder {
 		if name == prop {
-			if index == len(o.propertyOrder)-1 {
-				o.propertyOrder = o.propertyOrder[:index]
-			} else {
-				o.propertyOrder = append(o.propertyOrder[:index], o.propertyOrder[index+1:]...)
-			}
+			// Build a new slice instead of shifting in place: an enumeration (for-in)
+			// may be ranging over the current one while its body deletes properties,
+			// and must neither skip nor repeat the remaining names.
+			order := make([]string, 0, len(o.propertyOrder)-1)
+			order = append(order, o.propertyOrder[:index]...)
+			order = append(order, o.propertyOrder[index+1:]...)
+			o.propertyOrder = order
+			break
 		}
 	}
 }
